@@ -20,10 +20,14 @@ from .common import enc_str, dec_str, frac_str
 NEED_DRIVER = True
 RULE = ('xml: exhaustive strings of length <= 3 over {& < > " \' a ; #}, every XML-legal BMP code point (chunks of 64) and '
         'sampled astral ones, random strings <= 40 chars mixing the five specials, entity-like fragments (&amp; &#38; &lt '
-        'pre-escaped text), markup fragments, BMP/astral characters, and TAB/LF/CR witnesses; non-trivial = contains a '
+        'pre-escaped text), markup fragments, BMP/astral characters, and TAB/LF/CR witnesses; the boundaries of the Char production and '
+        'the first/last code points + a sample of every plane 1..16 (alone and next to specials); call sequences of related '
+        'strings (same length / prefix / case variants / repeats, order kept) and fresh-module single calls; non-trivial = contains a '
         'special or white-space-control character. format_hms: all integers 0..4000 s, boundaries (9.9995, 10, 59.5, 60, '
         '3599.5, 3600, 10^7) with +-1 ulp neighbours, halves k+1/2 (even and odd k), k +- 2^-20, exact millisecond ties '
-        '(odd/16), constants of the current source +- {0, 1/2, ulp}, random floats per branch, each in seconds and in '
+        '(odd/16), every j/1000+0.0005 (j<10^4) with +-1 ulp for a sample, k+1/2 +-1 ulp around the branch points and sampled to 10^7, '
+        'constants of the current source +- {0, 1/2, ulp}, random floats per branch, call sequences (same number with either '
+        'unit flag, int/float twins, neighbours sharing the rounded value, repeats), each in seconds and in '
         'milliseconds, ints and floats; non-trivial = within 1 s of a branch boundary or a rounding tie, or sub-10 s; '
         'distinct by input')
 TRUSTED = ['hand-written model Model/C20.lean (validated by this correspondence run)',
@@ -88,6 +92,48 @@ def rand_string(rng, ws_rate):
     return ''.join(out)
 
 
+CHAR_BOUNDS = [0x9, 0xA, 0xD, 0x20, 0x21, 0x7E, 0x7F, 0x80, 0x84, 0x85, 0x86, 0x9F, 0xA0, 0xFF, 0x100, 0x7FF, 0x800, 0x2027, 0x2028,
+               0x2029, 0xD7FE, 0xD7FF, 0xE000, 0xE001, 0xF8FF, 0xFDCF, 0xFDD0, 0xFDEF, 0xFDF0, 0xFEFF, 0xFFF0, 0xFFFC, 0xFFFD]
+
+
+def plane_points(rng):
+    """the boundaries of the Char production; for every supplementary plane its first two and last three code points
+    (xxFFFE / xxFFFF are noncharacters but XML-legal) and a random sample; U+FFFFF / U+100000 / U+10FFFD..U+10FFFF included"""
+    pts = list(CHAR_BOUNDS)
+    for plane in range(1, 17):
+        base = plane << 16
+        pts += [base, base + 1, base + 0x7FFF, base + 0x8000, base + 0xFFFD, base + 0xFFFE, base + 0xFFFF]
+        pts += [base + rng.randint(2, 0xFFFC) for _ in range(6)]
+    pts += [0x10ABCD, 0xFFFFF, 0x100000, 0x10FFFD, 0x10FFFE, 0x10FFFF, 0x1F600, 0x2A6DF, 0xE0001, 0xE01EF]
+    out = []
+    for cp in pts:
+        if legal_cp(cp) and cp not in out:
+            out.append(cp)
+    return out
+
+
+def xml_sequences(ctx):
+    """call SEQUENCES: the same function called again and again with related strings (same length, same prefix, same
+    text up to case / surrounding blanks / one character, the text repeated, then the first text again).  Order matters
+    and repeats are kept: state carried from one call to the next (a memo keyed on too little) shows up as a wrong answer
+    for some call of the sequence; every call is judged."""
+    rng = ctx.rng
+    seqs = []
+    swap = {'<': '>', '>': '<', '"': "'", "'": '"', '&': '<', 'a': '&', ';': '&', 'x': "'"}
+    bases = ['a<b', "it's", '&amp;', '"q"', 'x&y', '<a x="1">', 'A&B', 'Tom & Jerry', '\U00100000&', 'a\U0010ffffb', '']
+    for _ in range(ctx.n(150)):
+        bases.append(rand_string(rng, 0.0))
+    for s in bases:
+        t = ''.join(swap.get(c, c) for c in s)                       # same length, specials exchanged
+        k = rng.randint(0, len(s))
+        u = s[:k] + rng.choice(SPECIALS) + s[k + 1:]                 # same prefix (and usually same length)
+        v = s[:k] + rng.choice(['\U00100000', '\U0010fffd', '\ud7ff', '\ue000', 'z']) + s[k + 1:]
+        seq = [s, t, s, u, v, s.swapcase(), s.upper(), s.lower(), ' ' + s, s + ' ', s.strip(), s + s, s[::-1], s[:len(s) // 2],
+               s, t]
+        seqs.append([x for x in seq if all(legal_cp(ord(c)) for c in x)])
+    return seqs
+
+
 def xml_cases(ctx, corpus):
     rng = ctx.rng
     cases = [c['s'] for c in corpus if c['kind'] == 'xml']
@@ -104,6 +150,11 @@ def xml_cases(ctx, corpus):
     for a in FRAGS[:30]:
         for b in FRAGS[:30]:
             cases.append(a + b)
+    # boundaries of the XML 1.0 Char production and of every plane, each alone, between letters and next to specials
+    # (single-character strings first, so that a dropped / altered character gives a minimal witness)
+    for cp in plane_points(rng):
+        c = chr(cp)
+        cases += [c, 'a' + c + 'b', c + '&' + c, '<' + c + '>', '"' + c + "'"]
     # every legal BMP code point, in chunks; astral: plane starts/ends and a random sample
     bmp = [cp for cp in range(0x20, 0x10000) if legal_cp(cp)]
     for i in range(0, len(bmp), 64):
@@ -196,12 +247,28 @@ def hms_cases(ctx, corpus):
             secs.append(10 ** rng.uniform(-6, 7))
         else:
             secs.append(rng.uniform(0, 1e7))
+    # sub-10 s branch: every k + 0.0005 * odd, i.e. j/1000 + 0.0005 for every j in 0..9999, as the decimal literal (the
+    # nearest double, which lies just above or just below the tie) -- and its two neighbours for a sample; the same in
+    # milliseconds, where j + 0.5 is exact
+    half_ms = [float(f'{j}.5e-3') for j in range(10000)]
+    secs += half_ms
+    for j in sorted(set(rng.sample(range(10000), min(10000, ctx.n(1200))) + list(range(0, 40)) + list(range(9960, 10000)))):
+        secs += ulps(half_ms[j])
+    # long branch: k + 0.5 and its two neighbours, every k around the branch points, a sample elsewhere (even and odd k)
+    ks = list(range(10, 131)) + list(range(3540, 3661)) + [rng.randint(10, 10 ** 7 - 1) for _ in range(ctx.n(400))]
+    for k in ks:
+        secs += [k + 0.5] + ulps(k + 0.5)
     cases = []
     for c in corpus:
         if c['kind'] == 'hms':
             cases.append((c['v'], c['ms']))
     for x in secs:
         cases.append((x, False))
+    for j in sorted(set(rng.sample(range(10000), min(10000, ctx.n(1500))) + list(range(0, 30)) + list(range(9970, 10000)))):
+        cases += [(j + 0.5, True)] + [(u, True) for u in ulps(j + 0.5)]
+    for k in ks[::3]:
+        m = 1000 * k + 500
+        cases += [(m, True), (float(m), True)] + [(u, True) for u in ulps(float(m))]
     # the same durations given in milliseconds: ints where exact, floats otherwise, plus near-by ints
     for x in secs[::2] + marks:
         m = x * 1000
@@ -221,6 +288,26 @@ def hms_cases(ctx, corpus):
         if in_domain(v, ms):
             out.append((v, ms))
     return out
+
+
+def hms_sequences(ctx):
+    """call SEQUENCES for format_hms: the same number with the other unit flag, the int and the float of the same value
+    (equal and hash-equal in Python), neighbours that share the rounded value / the printed text / the integer part, then
+    the first call again.  Order and repeats are kept; every call is judged."""
+    rng = ctx.rng
+    seqs = []
+    bases = [5, 10, 59.5, 60, 3599.5, 3600, 9999, 9999.5, 12345.6789, 65, 9.9995, 1, 0, 62.5, 1000, 10000, 59500, 3600000]
+    for _ in range(ctx.n(150)):
+        bases.append(rng.choice([rng.randint(0, 12000), round(rng.uniform(0, 12000), rng.choice([0, 1, 3, 4])),
+                                 rng.uniform(0, 70), rng.randint(0, 10 ** 7), rng.randint(0, 70) + 0.5]))
+    for v in bases:
+        fv, iv = float(v), int(v)
+        seq = [(v, False), (v, True), (v, False), (fv, False), (iv, False), (fv, True), (iv, True),
+               (math.nextafter(fv, math.inf), False), (fv + 0.25, False), (iv + 0.5, False), (iv + 0.5, True),
+               (v * 1000, True), (v * 1000, False) if v * 1000 <= 10 ** 7 else (v, False), (v / 1000.0, False),
+               (round(fv, 3), False), (round(fv), False), (v, True), (v, False)]
+        seqs.append([c for c in seq if in_domain(*c)])
+    return seqs
 
 
 # ------------------------------------------------------------------------------------------------
@@ -363,8 +450,58 @@ def show_num(v):
 def run(ctx):
     from plotink import text_utils as tu
     corpus = load_corpus(ctx)
+    run_fresh(ctx, tu, corpus)
     run_xml(ctx, tu, corpus)
     run_hms(ctx, tu, corpus)
+
+
+def run_fresh(ctx, tu, corpus):
+    """single calls on a freshly (re)loaded module: the first call after import, with no history behind it, judged by
+    the same oracles (the streams below judge calls that have thousands of earlier calls behind them)"""
+    import importlib
+    items = [c for c in corpus][:60] + [{'kind': 'xml', 's': "\U00100000<&>\"'"}, {'kind': 'hms', 'v': 9.9995, 'ms': False},
+                                        {'kind': 'hms', 'v': 59500, 'ms': True}]
+    for it in items:
+        try:
+            importlib.reload(tu)
+        except Exception as ex:
+            ctx.notes.append(f'fresh-module stream skipped: reload failed: {ex!r}')
+            return
+        if it['kind'] == 'xml':
+            s = it['s']
+            if not all(legal_cp(ord(c)) for c in s):
+                continue
+            inp = {'kind': 'xml', 's': enc_str(s), 'text': s[:60], 'fresh_module': True}
+            ctx.count(('fresh-xml', s), 'xml:fresh')
+            try:
+                e = tu.xml_escape(s)
+            except Exception as ex:
+                ctx.violate('xml_escape raised', inp, repr(ex), 'the escaped text', key='xml-raised')
+                continue
+            prob = no_special_problem(e)
+            if prob:
+                ctx.violate('xml_escape: special character outside an entity', inp, e[:120], prob, key='xml-special-outside-entity')
+            for place, b in zip(PLACES, read_back(e)):
+                if b == s or (not isinstance(b, tuple) and any(c in WS for c in s) and b == normalised(s, place)):
+                    continue      # the white-space class (F9) is reported by the main stream
+                obs = b[1] if isinstance(b, tuple) else repr(b)[:120]
+                ctx.violate(f'xml_escape: text not read back from {place}', inp, obs, repr(s)[:120], key=f'xml-roundtrip-{place}')
+        else:
+            v, ms = it['v'], it['ms']
+            if not in_domain(v, ms):
+                continue
+            inp = {'kind': 'hms', 'v': show_num(v), 'ms': ms, 'value': repr(v), 'fresh_module': True}
+            ctx.count(('fresh-hms', show_num(v), ms), 'hms:fresh')
+            q = Fraction(v / 1000.0 if ms else v)
+            try:
+                text = tu.format_hms(v, True) if ms else tu.format_hms(v)
+            except Exception as ex:
+                ctx.violate('format_hms raised', inp, repr(ex), 'a text', key='hms-raised')
+                continue
+            prob, _ = hms_problem(text, q)
+            if prob:
+                ctx.violate('format_hms: ' + prob, inp, text, f'duration = {float(q)!r} s (exactly {frac_str(q)})',
+                            key='hms-' + ('short' if q < 10 else 'long'))
 
 
 def run_xml(ctx, tu, corpus):
@@ -373,6 +510,9 @@ def run_xml(ctx, tu, corpus):
     for s in bad:
         ctx.out_of_domain.append({'xml: not XML-legal, skipped': enc_str(s)})
     cases = [s for s in cases if all(legal_cp(ord(c)) for c in s)]
+    n_single = len(cases)
+    for seq in xml_sequences(ctx):               # order kept, repeats kept
+        cases += seq
     impl = []
     for s in cases:
         try:
@@ -397,6 +537,8 @@ def run_xml(ctx, tu, corpus):
         has_sp = any(c in SPECIALS for c in s)
         path = 'xml:ws' if has_ws else 'xml:entity-like' if ('&' in s and any(t in s for t in ENT_TAILS + ('#',))) \
             else 'xml:special' if has_sp else 'xml:plain'
+        if i >= n_single:
+            path += ':seq'
         ctx.count(('xml', s), path, has_ws or has_sp)
         inp = {'kind': 'xml', 's': enc_str(s), 'text': s[:60]}
         back = read_back(e)
@@ -438,13 +580,9 @@ def run_xml(ctx, tu, corpus):
 
 def run_hms(ctx, tu, corpus):
     cases = hms_cases(ctx, corpus)
-    try:
-        neg0 = tu.format_hms(-0.0)
-        if neg0 != tu.format_hms(0.0):
-            ctx.out_of_domain.append({'format_hms(-0.0)': neg0, 'format_hms(0.0)': tu.format_hms(0.0),
-                                      'why': 'negative zero is not a rational number; excluded from the domain'})
-    except Exception as ex:
-        ctx.out_of_domain.append({'format_hms(-0.0) raised': repr(ex)})
+    n_single = len(cases)
+    for seq in hms_sequences(ctx):                # order kept, repeats kept
+        cases += seq
     outs = None
     if ctx.driver:
         outs = ctx.driver.batch([f'c20 hms {frac_str(Fraction(v))} {1 if ms else 0}' for v, ms in cases])
@@ -468,7 +606,7 @@ def run_hms(ctx, tu, corpus):
                 ctx.disagree('formatHms model vs format_hms', inp, text, dec_str(mtext))
         else:
             path = form or 'unparsed'
-        ctx.count(('hms', show_num(v), ms), f"hms:{path}{':ms' if ms else ''}", near_boundary(q))
+        ctx.count(('hms', show_num(v), ms), f"hms:{path}{':ms' if ms else ''}{':seq' if i >= n_single else ''}", near_boundary(q))
         if i % 401 == 0:
             ctx.sample({'format_hms': repr(v), 'milliseconds': ms, 'text': text}, cap=12)
         # ---- property oracle ----
@@ -483,6 +621,14 @@ def run_hms(ctx, tu, corpus):
             if same != text:
                 ctx.violate('format_hms: millisecond input prints a different text than the equivalent seconds', inp,
                             text, f'format_hms({secs!r}) = {same!r}', key='hms-ms')
+    # out-of-domain probe, made LAST so that no in-domain call has an out-of-domain call in its history
+    try:
+        neg0 = tu.format_hms(-0.0)
+        if neg0 != tu.format_hms(0.0):
+            ctx.out_of_domain.append({'format_hms(-0.0)': neg0, 'format_hms(0.0)': tu.format_hms(0.0),
+                                      'why': 'negative zero is not a rational number; excluded from the domain'})
+    except Exception as ex:
+        ctx.out_of_domain.append({'format_hms(-0.0) raised': repr(ex)})
     if outs is not None:
         missing = [(p, m) for p in ('short', 'ss', 'm:ss', 'h:mm:ss') for m in (False, True) if (p, m) not in paths_seen]
         if missing:
